@@ -308,6 +308,9 @@ class SimplicialComplex(Hypergraph):
         except TypeError:
             raise XGIError("The simplex cannot be cast to a frozenset.")
 
+        if None in members:
+            raise XGIError("None cannot be a node or edge")
+
         if self.has_simplex(members):
             return
 
@@ -497,6 +500,8 @@ class SimplicialComplex(Hypergraph):
                     _ = frozenset(members)
                 except TypeError as e:
                     raise XGIError("Invalid ebunch format") from e
+                if None in _:
+                    raise XGIError("None cannot be a node or edge")
 
                 self._add_simplex(frozenset(members), idx)
 
@@ -603,9 +608,12 @@ class SimplicialComplex(Hypergraph):
                 continue
 
             try:
-                self._edge[idx] = frozenset(members)
+                member_set = frozenset(members)
             except TypeError as e:
                 raise XGIError("Invalid ebunch format") from e
+            if None in member_set:
+                raise XGIError("None cannot be a node or edge")
+            self._edge[idx] = member_set
 
             for n in members:
                 if n not in self._node:
